@@ -67,7 +67,22 @@ func main() {
 	noEvidence := flag.Bool("no-evidence", false, "do not write evidence files (sub-runs of the thorough tier)")
 	jsonOut := flag.String("json", "", "write the obligation list as JSON to this file (sub-runs)")
 	only := flag.String("rule", "", "only report obligations of this rule (replay)")
+	describe := flag.Bool("describe", false, "print the rule registry as JSON and exit")
 	flag.Parse()
+	if *describe {
+		type d struct {
+			ID, Level, Explain string
+			Trusted            []string
+		}
+		var out []d
+		for _, s := range registry {
+			out = append(out, d{s.id, s.level, s.explain, s.trusted})
+		}
+		sort.Slice(out, func(i, j int) bool { return out[i].ID < out[j].ID })
+		b, _ := json.MarshalIndent(out, "", " ")
+		fmt.Println(string(b))
+		return
+	}
 
 	start := time.Now()
 	seed := 0
